@@ -246,7 +246,7 @@ def tla_set(xs) -> str:
 
 
 def enumerate_sequences(ctx: Ctx, cfg: dict, depth: int, durs: list[int], reopen: bool) -> list[list[dict]]:
-    wd = ctx.workdir(f"mc_{cfg['kind']}_{cfg['max']}_{cfg['lsize']}_{cfg['aw']}{cfg['dw']}")
+    wd = ctx.workdir(f"mc_{cfg['kind']}_{cfg['max']}_{cfg['lsize']}_{cfg['aw']}{cfg['dw']}_d{depth}{'b' if cfg.get('bad') else ''}")
     text = MC_CFG.format(kind=cfg["kind"], max=cfg["max"], lsize=cfg["lsize"], aw=cfg["aw"], dw=cfg["dw"],
                          keys=tla_set(cfg["keys"]), durs=tla_set(durs), depth=depth, export="TRUE",
                          reopen="TRUE" if reopen else "FALSE", none="TRUE" if cfg.get("none") else "FALSE",
@@ -370,15 +370,19 @@ def run(ctx: Ctx) -> None:
     for m in (1, 2, 3):
         # thorough: depth 6 (117 649 sequences) for max_size 2, depth 5 for the others (memory: every history is kept)
         configs.append(({"kind": "lru", "max": m, "lsize": 0, "aw": 1, "dw": 1, "keys": keys3, "none": (m == 2) if quick else (m == 3),
-                         "reput": m == 1, "bad": m == 2},
+                         "reput": m == 1, "bad": quick and m == 2},
                         depth if (quick or m == 2) else depth - 1, [1], False))
     for m in (1, 2, 3):
-        configs.append(({"kind": "hybrid", "max": m, "lsize": 0, "aw": 1, "dw": 1, "keys": keys3, "none": m == 2 and quick, "bad": m == 1},
+        configs.append(({"kind": "hybrid", "max": m, "lsize": 0, "aw": 1, "dw": 1, "keys": keys3, "none": m == 2 and quick, "bad": quick and m == 1},
                         depth - 1 if quick else 4, [1, 2] if quick else [0, 1, 3], False))
     if not quick:
         configs.append(({"kind": "hybrid", "max": 2, "lsize": 0, "aw": 1, "dw": 3, "keys": keys3}, depth - 1, [1, 2], False))
         configs.append(({"kind": "hybrid", "max": 2, "lsize": 0, "aw": 3, "dw": 1, "keys": keys3, "none": True}, 3, [1, 2], False))
-    configs.append(({"kind": "simple", "max": 1, "lsize": 0, "aw": 1, "dw": 1, "keys": keys3, "none": True, "bad": True}, depth, [1], False))
+    configs.append(({"kind": "simple", "max": 1, "lsize": 0, "aw": 1, "dw": 1, "keys": keys3, "none": True, "bad": quick}, depth, [1], False))
+    if not quick:     # unserialisable values at a smaller depth (the op alphabet grows by one put per key)
+        configs.append(({"kind": "lru", "max": 2, "lsize": 0, "aw": 1, "dw": 1, "keys": keys3, "bad": True}, 5, [1], False))
+        configs.append(({"kind": "hybrid", "max": 1, "lsize": 0, "aw": 1, "dw": 1, "keys": keys3, "bad": True}, 4, [1, 2], False))
+        configs.append(({"kind": "simple", "max": 1, "lsize": 0, "aw": 1, "dw": 1, "keys": keys3, "bad": True}, 5, [1], False))
     for m, ls in ((1, 0), (2, 0), (2, 2), (2, 1)) if quick else ((1, 0), (2, 0), (3, 0), (2, 2), (2, 1), (3, 1)):
         configs.append(({"kind": "disk", "max": m, "lsize": ls, "aw": 1, "dw": 1, "keys": keys3, "none": (m, ls) == (2, 2), "reput": ls > 0,
                          "bad": (m, ls) in ((2, 1), (1, 0))},
@@ -396,7 +400,7 @@ def run(ctx: Ctx) -> None:
             traces += run_many([(dict(cfg, shared=True), s) for s in sub], gap, shared=True)
             # the same shared cache used through TWO handles alternately (state kept on a handle is not shared)
             traces += run_many([(dict(cfg, shared=True, handles=2), s) for s in sub[:: (3 if quick else 2)]], gap, shared=True)
-        validate(ctx, traces, f"{cfg['kind']}_{cfg['max']}_{cfg['lsize']}_{cfg['aw']}{cfg['dw']}")
+        validate(ctx, traces, f"{cfg['kind']}_{cfg['max']}_{cfg['lsize']}_{cfg['aw']}{cfg['dw']}_d{d}{'b' if cfg.get('bad') else ''}")
         all_traces += traces[:50]
         for t in traces:
             nontriv = any(e["op"] == "put" and (len(t["ev"][i - 1]["present"]) >= t["max"] if i else False)
